@@ -2,7 +2,11 @@ package main
 
 import (
 	"bytes"
+	"encoding/binary"
 	"fmt"
+	sproto "github.com/thomasjungblut/go-sstables/sstables/proto"
+	"google.golang.org/protobuf/proto"
+	"hash/crc32"
 	"math/rand"
 	"os"
 	"sort"
@@ -402,7 +406,44 @@ func genC03(r *rand.Rand, tier string) []Case {
 		c.Probes, c.Bounds = tblProbes(r, c.KVs, width, 16)
 		cases = append(cases, c)
 	}
+	// a key that contains the complete image of an index record (under the disk loader the index file is scanned for
+	// record markers)
+	for k := 0; k < 2; k++ {
+		entry, _ := proto.Marshal(&sproto.IndexEntry{Key: []byte("zzzz"), ValueOffset: 8})
+		evil := append([]byte("b"), recImage(entry)...)
+		c := &c03Case{Loader: "disk", RBuf: 4096, SeekLen: []int{0, 16}[k]}
+		c.Opts = tblOpts{IndexComp: 0, DataComp: 0, BloomN: 10, BloomP: 0.01, WBuf: 4096}
+		c.KVs = []tblKV{{K: []byte("a"), V: []byte("va")}, {K: evil, V: []byte("vb")}, {K: []byte("c"), V: []byte("vc")}, {K: []byte("d"), V: []byte("vd")}}
+		c.Probes = [][]byte{[]byte("a"), evil, []byte("c"), []byte("d"), []byte("zzzz"), []byte("bb")}
+		c.Bounds = [][2][]byte{{[]byte("a"), []byte("d")}, {[]byte("b"), []byte("c")}}
+		cases = append(cases, c)
+	}
 	return cases
+}
+
+// embedsIndexRecord: do the bytes start with a complete, checksum-correct record whose payload parses as an index entry
+func embedsIndexRecord(b []byte) bool {
+	if len(b) < 7 || b[3] != 0 {
+		return false
+	}
+	usz, n1 := binary.Uvarint(b[4:])
+	if n1 <= 0 || len(b) < 4+n1+1 {
+		return false
+	}
+	csz, n2 := binary.Uvarint(b[4+n1:])
+	if n2 <= 0 || csz != 0 {
+		return false
+	}
+	hl := 4 + n1 + n2
+	crc, n3 := binary.Uvarint(b[hl:])
+	if n3 <= 0 || uint64(crc32.Checksum(b[:hl], crc32.MakeTable(crc32.Castagnoli))) != crc {
+		return false
+	}
+	if uint64(len(b)) < uint64(hl+n3)+usz {
+		return false
+	}
+	e := &sproto.IndexEntry{}
+	return proto.Unmarshal(b[hl+n3:uint64(hl+n3)+usz], e) == nil
 }
 
 func init() {
@@ -412,6 +453,17 @@ func init() {
 		New: func() Case { return &c03Case{} },
 		Classify: func(cs Case, msg string) string {
 			c := cs.(*c03Case)
+			if c.Loader == "disk" && c.Opts.IndexComp == 0 {
+				// F-C03d: a key embeds the complete image of an index record; the disk index finds its records by scanning
+				// for the marker and cannot tell the image from a record
+				for _, kv := range c.KVs {
+					for i := 0; i+3 <= len(kv.K); i++ {
+						if kv.K[i] == 0x91 && kv.K[i+1] == 0x8d && kv.K[i+2] == 0x4c && embedsIndexRecord(kv.K[i:]) {
+							return "F-C03d"
+						}
+					}
+				}
+			}
 			if c.Loader != "map4" && c.Loader != "map20" {
 				return ""
 			}
